@@ -390,8 +390,9 @@ def run(ctx: Ctx) -> None:
         nonlocal evaluations
         evaluations += 1
         counters[f"lossless:{label}"] += 1
+        given = copy.deepcopy(doc)
         try:
-            spec = model.LSPModel(**copy.deepcopy(doc))
+            spec = model.LSPModel(**given)
         except Exception as e:
             import re
             msg = str(e)
@@ -400,6 +401,9 @@ def run(ctx: Ctx) -> None:
             ctx.finding(("load-raises:" + type(e).__name__, "LSPModel", cause),
                         f"schema-valid document cannot be loaded: {msg[:200]}", {"edits": edits})
             return None
+        changed = first_diff(doc, given)
+        if changed:
+            ctx.finding(("load-mutates-input", generalise(changed.split(":")[0]), label), f"LSPModel(**doc) altered the document: {changed}", {"edits": edits})
         rb = normalise(read_back(spec))
         want = normalise(doc)
         diff = first_diff(want, rb)
@@ -434,20 +438,30 @@ def run(ctx: Ctx) -> None:
         if not evolve.schema_valid(ext):
             raise HarnessError("extension document is not schema-valid")
         for files in ([base, ext], [base, ext, ext], [ext, base]):
-            evaluations += 1
-            counters["merge"] += 1
-            try:
-                spec = model.create_lsp_model(copy.deepcopy(files))
-            except Exception as e:
-                ctx.finding(("merge-raises:" + type(e).__name__, "create_lsp_model", "-"), str(e)[:200], {"edits": edits})
-                continue
-            want = copy.deepcopy(files[0])
-            for f in files[1:]:
+            pristine = copy.deepcopy(files)
+            want = copy.deepcopy(pristine[0])
+            for f in pristine[1:]:
                 for k in LISTS:
                     want[k] = want[k] + copy.deepcopy(f[k])
-            diff = first_diff(normalise(want), normalise(read_back(spec)))
-            if diff:
-                ctx.finding(("merge-not-concatenation", generalise(diff.split(":")[0]), f"{len(files)} files"), diff, {"edits": edits})
+            # the same parsed documents are loaded twice (a history of loads): the second load must see the
+            # same documents, i.e. loading must not alter its inputs
+            docs = copy.deepcopy(pristine)
+            for attempt in (1, 2):
+                evaluations += 1
+                counters["merge"] += 1
+                try:
+                    spec = model.create_lsp_model(docs)
+                except Exception as e:
+                    ctx.finding(("merge-raises:" + type(e).__name__, "create_lsp_model", "-"), str(e)[:200], {"edits": edits})
+                    break
+                diff = first_diff(normalise(want), normalise(read_back(spec)))
+                if diff:
+                    ctx.finding(("merge-not-concatenation", generalise(diff.split(":")[0]), f"{len(files)} files, load #{attempt}"), diff, {"edits": edits})
+                changed = first_diff(pristine, docs)
+                if changed:
+                    ctx.finding(("load-mutates-input", generalise(changed.split(":")[0]), f"{len(files)} files"),
+                                f"create_lsp_model altered the documents it was given: {changed}", {"edits": edits})
+                    break
             distinct.add(h([edits, len(files)]))
 
     # (c) equality
